@@ -82,6 +82,24 @@ theorem Sem.Heap.chain_runProgram {b b' : Block} (h : Chain (LkB cx) b b') (hb :
     obtain ⟨⟨D', hr⟩, hb'⟩ := hl (watD cx) (watOK_watD cx) hb
     exact (ih hb').trans (runProgram_hr ρ n externs hr hG)
 
+/-- the same from any initial state without cells and closures in which the facts hold ("execution in a
+modified environment": e.g. the global `DEBUG` preset) -/
+theorem Sem.Heap.chain_runChunk {b b' : Block} (h : Chain (LkB cx) b b') (hb : NoRefB (watD cx) b)
+    {N : NumOps} (ρ : ExtOracle N) (n : Nat) (σ : State N) (hG : ∀ p ∈ cx.G N, σ.getGlobal p.1 = p.2)
+    (hc : σ.cells = []) (hcl : σ.closures = []) :
+    observe (runChunk ρ n b' σ) = observe (runChunk ρ n b σ) := by
+  induction h with
+  | refl => rfl
+  | cons hl _ ih =>
+    obtain ⟨⟨D', hr⟩, hb'⟩ := hl (watD cx) (watOK_watD cx) hb
+    exact (ih hb').trans (runChunk_hr ρ n hr σ hG hc hcl)
+
+/-- decidable check of `NoRefB` -/
+theorem NoRefB.ofBool {D : List DName} {b : Block} (h : D.all (fun x => !b.refs x) = true) : NoRefB D b := by
+  intro x hx
+  have := List.all_eq_true.mp h x hx
+  simpa using this
+
 theorem Visitor.visit_chain (H : HooksHeap cx P) (sc : Bool) (fuel : Nat) (pushes : Bool) (b : Block) (s : σ) :
     Chain (LkB cx) b (Visitor.visitBlock P sc fuel pushes b s).1 :=
   Visitor.visit_rel (C := heapFam cx) H.toRel sc fuel pushes b s
@@ -241,4 +259,53 @@ example : (Visitor.runScoped processor sample ()).1 =
          .callStmt (.call (.var "g") none .tuple [.num 2])] none := rfl
 
 end Demo.DropUnusedLocal
+/-! ## Worked instance (context): replacing the watched global `DEBUG` by its value
+
+A minimal `inject_global_value`: every expression occurrence of the identifier `DEBUG` becomes `true`.
+Sound in the context "`DEBUG` is a watched global (never declared, never assigned) whose value is
+`true`": the theorem is for programs that do not declare / assign `DEBUG` (`NoRefB [.wat "DEBUG"]`,
+decidable) started in a state where the global is preset. Prefix positions are left alone (F19). -/
+namespace Demo.InjectDebug
+open Sem Sem.Heap
+
+def dcx : Cx where
+  W := ["DEBUG"]
+  G := fun _ => [("DEBUG", .bool true)]
+  sub := fun _ p hp => by simp only [List.mem_singleton] at hp; subst hp; simp
+
+def exprHook (e : Expr) (s : Unit) : Expr × Unit :=
+  match e with
+  | .var "DEBUG" => (.true, s)
+  | _ => (e, s)
+
+def processor : Processor Unit := { expr := exprHook }
+
+theorem hooksHeap : HooksHeap dcx processor where
+  expr := fun e s => by
+    simp only [processor, exprHook]
+    split
+    · exact .single (LkE.injectGlobal (by simp [dcx])
+        (fun N call ρ k env σ => ⟨.bool true, by simp [dcx], rfl⟩) (fun _ _ _ => rfl))
+    · exact .refl _
+
+/-- whole-pass theorem: same outcome from every state in which the global `DEBUG` is `true` -/
+theorem run_refines (b : Block) (hb : NoRefB [.wat "DEBUG"] b) {N : NumOps} (ρ : ExtOracle N) (n : Nat)
+    (σ : State N) (hd : σ.getGlobal "DEBUG" = .bool true) (hc : σ.cells = []) (hcl : σ.closures = []) :
+    observe (runChunk ρ n (Visitor.runDefault processor b ()).1 σ) = observe (runChunk ρ n b σ) :=
+  chain_runChunk (cx := dcx) (Visitor.visit_chain hooksHeap false _ true b ()) hb ρ n σ
+    (fun p hp => by simp only [dcx, List.mem_singleton] at hp; subst hp; exact hd) hc hcl
+
+/-- non-vacuity: `local function f(x) if DEBUG then emit(x) end end; f(1)` -/
+def sample : Block :=
+  .mk [.localFn .loc "f" (.mk [.mk "x" none] false none none [] []
+         (.mk [.ifs [(.var "DEBUG", .mk [.callStmt (.call (.var "emit") none .tuple [.var "x"])] none)] none] none)),
+       .callStmt (.call (.var "f") none .tuple [.num 1])] none
+
+example : NoRefB [.wat "DEBUG"] sample := NoRefB.ofBool rfl
+example : (Visitor.runDefault processor sample ()).1 =
+    .mk [.localFn .loc "f" (.mk [.mk "x" none] false none none [] []
+           (.mk [.ifs [(.true, .mk [.callStmt (.call (.var "emit") none .tuple [.var "x"])] none)] none] none)),
+         .callStmt (.call (.var "f") none .tuple [.num 1])] none := rfl
+
+end Demo.InjectDebug
 end DarkluaModel
